@@ -77,12 +77,12 @@ def se_dump_text(T, opts=None):
                 edges.append((eid, vid, other) if r.random() < 0.5 else (eid, other, vid))
                 gt[eid] = 1.0
             made.append(vid)
-    for vid in sorted(verts):
+    for vid in (sorted(verts) if not opts.get("keep_order") else list(verts)):
         x, y = verts[vid]
         out.append(f"  {vid}   {x!r}  {y!r}")
     out.append("")
     out.append("edges  ")
-    for eid, a, b in sorted(edges):
+    for eid, a, b in (sorted(edges) if not opts.get("keep_order") else edges):
         out.append(f"  {eid}       {a}  {b}      density {gt[eid]!r} ")
     out.append("")
     out.append("faces    /* edge loop */      ")
@@ -90,7 +90,7 @@ def se_dump_text(T, opts=None):
     for eid, a, b in edges:
         elook[(a, b)] = eid
         elook[(b, a)] = -eid
-    cids = sorted(T.cells)
+    cids = sorted(T.cells) if not opts.get("keep_order") else list(T.cells)
     ndrop = min(opts.get("drop_faces", 0), max(0, len(cids) - 1))
     if ndrop:
         # a dump from which faces (and their bodies) were cut out while their vertices and edges stayed
@@ -152,7 +152,7 @@ def build_se_file(fs, path):
 # ---------------------------------------------------------------- WKT
 def wkt_rows(T):
     rows = []
-    for cid in sorted(T.cells):
+    for cid in T.cells:
         cyc = T.cells[cid]
         pts = [T.verts[v] for v in cyc] + [T.verts[cyc[0]]]
         rows.append("POLYGON ((" + ", ".join(f"{x!r} {1024 - y!r}" for x, y in pts) + "))")
